@@ -16,12 +16,27 @@ type tarSpec struct {
 	Count  int    `json:"count"`
 	Name   int    `json:"name"`
 	Pay    int    `json:"pay"`
+	// Hdr: header field grid archive: one member "a" with exactly these header values
+	// and Size bytes of LCG noise as payload.
+	Hdr *tarHdr `json:"hdr,omitempty"`
+}
+
+type tarHdr struct {
+	Type     string `json:"type"` // type flag: 0 file, 1 hard link, 2 symlink, 3 char device, 4 block device, 5 directory, 6 fifo
+	Mode     int64  `json:"mode"`
+	Uid      int64  `json:"uid"`
+	Gid      int64  `json:"gid"`
+	Mtime    int64  `json:"mtime"`
+	Size     int    `json:"size"`
+	Linkname string `json:"linkname,omitempty"`
+	Devmajor int64  `json:"devmajor,omitempty"`
+	Devminor int64  `json:"devminor,omitempty"`
 }
 
 type tarMember struct {
 	Name    string
 	Payload []byte
-	Mtime   int64
+	Hdr     tarHdr
 	Nested  string
 	Inner   []byte
 }
@@ -33,6 +48,63 @@ type tarBlock struct {
 	Size   int
 	Type   byte
 	Chksum int64
+	Raw    []byte // the 512 header bytes
+}
+
+// numeric header fields (POSIX ustar layout): name, offset, length
+var tarNumFields = []struct {
+	Name     string
+	Off, Len int
+}{{"mode", 100, 8}, {"uid", 108, 8}, {"gid", 116, 8}, {"mtime", 136, 12}, {"devmajor", 329, 8}, {"devminor", 337, 8}}
+
+// tarNum is the harness' own reading of a numeric header field: octal digits up to
+// the first NUL (what archive/tar writes: zero padded, NUL terminated), or the GNU
+// base-256 form (first byte has bit 7 set; the remaining bits are a big endian two's
+// complement number), or nothing (all NUL).
+type tarNum struct {
+	Kind string // octal | base256 | empty | other
+	Val  int64
+}
+
+func tarNumField(b []byte) tarNum {
+	if b[0]&0x80 != 0 {
+		var inv byte
+		if b[0]&0x40 != 0 {
+			inv = 0xff
+		}
+		var x uint64
+		for i, c := range b {
+			c ^= inv
+			if i == 0 {
+				c &= 0x7f
+			}
+			if x>>56 != 0 {
+				return tarNum{Kind: "other"}
+			}
+			x = x<<8 | uint64(c)
+		}
+		if x>>63 != 0 {
+			return tarNum{Kind: "other"}
+		}
+		if inv == 0xff {
+			return tarNum{Kind: "base256", Val: ^int64(x)}
+		}
+		return tarNum{Kind: "base256", Val: int64(x)}
+	}
+	if i := bytes.IndexByte(b, 0); i >= 0 {
+		b = b[:i]
+	}
+	if len(b) == 0 {
+		return tarNum{Kind: "empty"}
+	}
+	var v int64
+	for _, c := range b {
+		if c < '0' || c > '7' {
+			return tarNum{Kind: "other"}
+		}
+		v = v<<3 | int64(c-'0')
+	}
+	return tarNum{Kind: "octal", Val: v}
 }
 
 type tarExp struct {
@@ -51,13 +123,22 @@ func tarBuild(spec any) *genFile {
 	w := tar.NewWriter(&buf)
 	for i := 0; i < sp.Count; i++ {
 		p := payloads[(sp.Pay+i)%len(payloads)]
-		m := &tarMember{Name: names[(sp.Name+i)%len(names)], Payload: p.Data, Mtime: 1600000000 + int64(i), Nested: p.Nested, Inner: p.Inner}
-		h := &tar.Header{Typeflag: tar.TypeReg, Name: m.Name, Size: int64(len(p.Data)), Mode: 0o640, Uid: 1000, Gid: 1001,
-			Uname: "user", Gname: "group", ModTime: time.Unix(m.Mtime, 0), Format: tarFormats[sp.Format]}
-		if err := w.WriteHeader(h); err != nil {
-			return nil // e.g. USTAR cannot store a non ASCII name
+		m := &tarMember{Name: names[(sp.Name+i)%len(names)], Payload: p.Data, Nested: p.Nested, Inner: p.Inner,
+			Hdr: tarHdr{Type: "0", Mode: 0o640, Uid: 1000, Gid: 1001, Mtime: 1600000000 + int64(i), Size: len(p.Data)}}
+		if sp.Hdr != nil {
+			m.Hdr = *sp.Hdr
+			m.Payload, m.Nested, m.Inner = lcg(sp.Hdr.Size, 777), "", nil
+			if sp.Hdr.Type != "0" {
+				m.Payload = nil // header only types
+			}
 		}
-		if _, err := w.Write(p.Data); err != nil {
+		h := &tar.Header{Typeflag: m.Hdr.Type[0], Name: m.Name, Size: int64(len(m.Payload)), Mode: m.Hdr.Mode, Uid: int(m.Hdr.Uid), Gid: int(m.Hdr.Gid),
+			Uname: "user", Gname: "group", ModTime: time.Unix(m.Hdr.Mtime, 0), Linkname: m.Hdr.Linkname, Devmajor: m.Hdr.Devmajor, Devminor: m.Hdr.Devminor,
+			Format: tarFormats[sp.Format]}
+		if err := w.WriteHeader(h); err != nil {
+			return nil // e.g. USTAR cannot store a non ASCII name or a number beyond its octal field
+		}
+		if _, err := w.Write(m.Payload); err != nil {
 			return nil
 		}
 		exp.Members = append(exp.Members, m)
@@ -84,7 +165,7 @@ func tarBuild(spec any) *genFile {
 			}
 			sum += int64(b)
 		}
-		exp.Blocks = append(exp.Blocks, tarBlock{Off: off, Size: int(sz), Type: hb[156], Chksum: sum})
+		exp.Blocks = append(exp.Blocks, tarBlock{Off: off, Size: int(sz), Type: hb[156], Chksum: sum, Raw: hb})
 		off += 512 + (int(sz)+511)/512*512
 	}
 	exp.EndOff = off
@@ -94,10 +175,109 @@ func tarBuild(spec any) *genFile {
 		f.Desc += fmt.Sprintf(" name=%s payload=%s", nameLabels[sp.Name], payloads[sp.Pay].Name)
 	}
 	f.Nontriv = sp.Count > 0
+	if h := sp.Hdr; h != nil {
+		f.Desc = fmt.Sprintf("format=%s hdr(type=%s mode=%#o uid=%d gid=%d mtime=%d size=%d linkname=%d dev=%d,%d)", sp.Format, h.Type, h.Mode, h.Uid, h.Gid, h.Mtime, h.Size, len(h.Linkname), h.Devmajor, h.Devminor)
+	}
 	return f
 }
 
+// boundary values of the octal header fields: 8 byte fields hold 7 digits (largest
+// 07777777), the 12 byte fields 11 digits (largest 077777777777); beyond that
+// archive/tar's GNU writer switches to base-256 and its PAX writer to extended
+// header records (the ustar field then holds 0); USTAR refuses.
+var (
+	tarModes  = []int64{0, 7, 0o777, 0o7777, 0o7777777}
+	tarIDs    = []int64{0, 7, 0o777, 0o7777777, 0o10000000, 1 << 31, 1 << 40}
+	tarMtimes = []int64{0, 1, 0o7777777, 0x7fffffff, 0x80000000, 0xffffffff, 1 << 32, 0o77777777777, 0o100000000000, -1}
+	tarSizes  = []int{0, 1, 7, 8, 0o777, 0o1000, 0o1001, 0o7777, 0o10000, 0o77777, 0o100000, 0o777777, 0o1000000}
+	tarLinks  = []string{"t", "dir/target", strings.Repeat("l", 100), strings.Repeat("m", 50) + "/" + strings.Repeat("n", 50)}
+	tarDevs   = [][2]int64{{0, 0}, {7, 0o7777777}, {0o7777777, 7}, {0o10000000, 1}}
+)
+
+var tarDefaultHdr = tarHdr{Type: "0", Mode: 0o644, Uid: 1000, Gid: 1001, Mtime: 1600000000, Size: 5}
+
+// tarHdrGrid: quick = covering list (every value of every field once, the others at
+// the default); thorough adds the full product mode x uid x gid x mtime and two
+// sizes around the 7 digit boundary.
+func tarHdrGrid(wide bool) []tarHdr {
+	var l []tarHdr
+	seen := map[tarHdr]bool{}
+	add := func(h tarHdr) {
+		if !seen[h] {
+			seen[h] = true
+			l = append(l, h)
+		}
+	}
+	d := tarDefaultHdr
+	for _, v := range tarModes {
+		h := d
+		h.Mode = v
+		add(h)
+	}
+	for _, v := range tarIDs {
+		h := d
+		h.Uid = v
+		add(h)
+		h = d
+		h.Gid = v
+		add(h)
+	}
+	for _, v := range tarMtimes {
+		h := d
+		h.Mtime = v
+		add(h)
+	}
+	sizes := tarSizes
+	if wide {
+		sizes = append(append([]int{}, sizes...), 0o7777777, 0o10000000)
+	}
+	for _, v := range sizes {
+		h := d
+		h.Size = v
+		add(h)
+	}
+	for _, t := range []string{"5", "6"} {
+		h := d
+		h.Type, h.Size = t, 0
+		add(h)
+	}
+	for _, t := range []string{"1", "2"} {
+		for _, ln := range tarLinks {
+			h := d
+			h.Type, h.Size, h.Linkname = t, 0, ln
+			add(h)
+		}
+	}
+	for _, t := range []string{"3", "4"} {
+		for _, dv := range tarDevs {
+			h := d
+			h.Type, h.Size, h.Devmajor, h.Devminor = t, 0, dv[0], dv[1]
+			add(h)
+		}
+	}
+	if wide {
+		for _, mode := range tarModes {
+			for _, uid := range tarIDs {
+				for _, gid := range tarIDs {
+					for _, mt := range tarMtimes {
+						h := d
+						h.Mode, h.Uid, h.Gid, h.Mtime = mode, uid, gid, mt
+						add(h)
+					}
+				}
+			}
+		}
+	}
+	return l
+}
+
 func tarEnum(r *core.Run, emit func(any)) {
+	for _, f := range []string{"ustar", "pax", "gnu"} {
+		for _, h := range tarHdrGrid(r.Thorough()) {
+			h := h
+			emit(&tarSpec{Format: f, Count: 1, Hdr: &h})
+		}
+	}
 	for _, f := range []string{"ustar", "pax", "gnu"} {
 		emit(&tarSpec{Format: f, Count: 0})
 		for count := 1; count <= 3; count++ {
@@ -115,29 +295,31 @@ def obs: {
   err: errs, fmt: (try format catch null), validity: validity,
   files: [.files[]? | {name: (.name|act), mode: (.mode|._sym|plain), uid: (.uid|._sym|plain), gid: (.gid|._sym|plain), size: (.size|._sym|plain), mtime: (.mtime|._sym|plain),
      mtime_desc: (.mtime|desc), chksum: (.chksum|._sym|plain), typeflag: (.typeflag|act), linkname: (.linkname|act), magic: (.magic|act), magic_desc: (.magic|desc),
-     uname: (.uname|act), gname: (.gname|act), prefix: (.prefix|act), hpad: (.header_block_padding|tb|length), dpad: (.data_block_padding|tb|length),
+     uname: (.uname|act), gname: (.gname|act), prefix: (.prefix|act), devmajor: (.devmajor|._sym|plain), devminor: (.devminor|._sym|plain),
+     raw: {mode: (.mode|act), uid: (.uid|act), gid: (.gid|act), mtime: (.mtime|act), devmajor: (.devmajor|act), devminor: (.devminor|act)}, hpad: (.header_block_padding|tb|length), dpad: (.data_block_padding|tb|length),
      data: (.data|nested), inner: (try (.data.members[0].uncompressed|tb) catch null)}],
   end_marker: (.end_marker | if type == "null" then null else (tb|length) end)
 };`
 
-// paxPath extracts the path record of a pax extended header ("%d key=value\n").
-func paxPath(b []byte) (string, bool) {
+// paxRecords parses the records of a pax extended header ("%d key=value\n").
+func paxRecords(b []byte) (map[string]string, bool) {
+	recs := map[string]string{}
 	for len(b) > 0 {
 		sp := bytes.IndexByte(b, ' ')
 		if sp < 0 {
-			return "", false
+			return recs, false
 		}
 		n, err := strconv.Atoi(string(b[:sp]))
 		if err != nil || n > len(b) || n < sp+2 {
-			return "", false
+			return recs, false
 		}
 		rec := string(b[sp+1 : n-1])
-		if k, v, ok := strings.Cut(rec, "="); ok && k == "path" {
-			return v, true
+		if k, v, ok := strings.Cut(rec, "="); ok {
+			recs[k] = v
 		}
 		b = b[n:]
 	}
-	return "", false
+	return recs, true
 }
 
 func tarCheck(f *genFile, o map[string]any, probe bool) []mm {
@@ -149,6 +331,8 @@ func tarCheck(f *genFile, o map[string]any, probe bool) []mm {
 		return c.ms
 	}
 	pending, havePending := "", false
+	pendingLink, havePendingLink := "", false
+	var pax map[string]string
 	mi := 0
 	for i, blk := range exp.Blocks {
 		e, _ := fs[i].(map[string]any)
@@ -158,11 +342,38 @@ func tarCheck(f *genFile, o map[string]any, probe bool) []mm {
 		}
 		c.num("chksum", e["chksum"], blk.Chksum)
 		c.num("size", e["size"], int64(blk.Size))
-		c.str("typeflag", e["typeflag"], string([]byte{blk.Type}))
+		c.str("typeflag", e["typeflag"], strings.Trim(string([]byte{blk.Type}), " \x00"))
 		c.str("magic", e["magic"], "ustar")
 		c.str("magic.description", e["magic_desc"], "valid")
 		c.num("header_block_padding", e["hpad"], 12)
 		c.num("data_block_padding", e["dpad"], int64((512-blk.Size%512)%512))
+		// every numeric field of every header block against the harness' own reading of the raw bytes
+		raw, _ := e["raw"].(map[string]any)
+		base256 := map[string]bool{}
+		for _, nf := range tarNumFields {
+			rb := blk.Raw[nf.Off : nf.Off+nf.Len]
+			switch ref := tarNumField(rb); ref.Kind {
+			case "octal":
+				c.num(nf.Name, e[nf.Name], ref.Val)
+				if nf.Name == "mtime" {
+					c.str("mtime.description", e["mtime_desc"], rfc3339UTC(ref.Val))
+				}
+			case "empty":
+				c.absent(nf.Name+":empty-field", e[nf.Name])
+			case "base256":
+				if g, ok := gi(e[nf.Name]); ok && g == ref.Val {
+					break
+				}
+				base256[nf.Name] = true
+				if e[nf.Name] == nil {
+					c.add("numeric-field-base256-not-decoded", fmt.Sprintf("%s field % x (GNU base-256: first byte has bit 7 set, value %d) is reported as the string %s without a number", nf.Name, rb, ref.Val, show(raw[nf.Name])))
+				} else {
+					c.add(nf.Name+":base256", fmt.Sprintf("%s field % x (GNU base-256, value %d) is reported as %s", nf.Name, rb, ref.Val, show(e[nf.Name])))
+				}
+			default:
+				panic(fmt.Sprintf("c15 harness error: archive/tar wrote a numeric field the harness cannot read: %s % x", nf.Name, rb))
+			}
+		}
 		d, _ := e["data"].(map[string]any)
 		var db []byte
 		if d != nil {
@@ -171,13 +382,18 @@ func tarCheck(f *genFile, o map[string]any, probe bool) []mm {
 		c.bytes("data:raw-block-bytes", db, f.Data[blk.Off+512:blk.Off+512+blk.Size])
 		switch blk.Type {
 		case 'x':
-			p, ok := paxPath(db)
-			if ok {
-				pending, havePending = p, true
+			if recs, ok := paxRecords(db); ok {
+				pax = recs
+				if p, ok := recs["path"]; ok {
+					pending, havePending = p, true
+				}
 			}
 			continue
 		case 'L':
 			pending, havePending = strings.TrimRight(string(db), "\x00"), true
+			continue
+		case 'K':
+			pendingLink, havePendingLink = strings.TrimRight(string(db), "\x00"), true
 			continue
 		}
 		if mi >= len(exp.Members) {
@@ -197,14 +413,42 @@ func tarCheck(f *genFile, o map[string]any, probe bool) []mm {
 		if name != m.Name {
 			c.add("name:"+exp.Format, fmt.Sprintf("effective member name (prefix/name, pax path or GNU long name) reported %s, written %s (name=%s prefix=%s)", show(name), show(m.Name), show(e["name"]), show(e["prefix"])))
 		}
-		c.num("mode", e["mode"], 0o640)
-		c.num("uid", e["uid"], 1000)
-		c.num("gid", e["gid"], 1001)
-		c.num("mtime", e["mtime"], m.Mtime)
-		c.str("mtime.description", e["mtime_desc"], time.Unix(m.Mtime, 0).UTC().Format(time.RFC3339))
+		// effective header values: the pax record of the preceding extended header when
+		// there is one, else the number fq shows for the ustar field
+		eff := func(field string, want int64) {
+			if v, ok := pax[field]; ok {
+				if g, err := strconv.ParseInt(v, 10, 64); err != nil || g != want {
+					c.add(field+":pax-record", fmt.Sprintf("pax record %s=%q in the extended header data fq reports, written %d", field, v, want))
+				}
+				return
+			}
+			if base256[field] {
+				return
+			}
+			c.num(field+":written", e[field], want)
+		}
+		c.str("typeflag:written", e["typeflag"], m.Hdr.Type)
+		eff("mode", m.Hdr.Mode)
+		eff("uid", m.Hdr.Uid)
+		eff("gid", m.Hdr.Gid)
+		eff("mtime", m.Hdr.Mtime)
+		if m.Hdr.Type == "3" || m.Hdr.Type == "4" {
+			eff("devmajor", m.Hdr.Devmajor)
+			eff("devminor", m.Hdr.Devminor)
+		}
 		c.str("uname", e["uname"], "user")
 		c.str("gname", e["gname"], "group")
-		c.str("linkname", e["linkname"], "")
+		link, _ := gs(e["linkname"])
+		if v, ok := pax["linkpath"]; ok {
+			link = v
+		}
+		if havePendingLink {
+			link, havePendingLink = pendingLink, false
+		}
+		if link != m.Hdr.Linkname {
+			c.add("linkname:"+exp.Format, fmt.Sprintf("effective link name (linkname, pax linkpath or GNU long link) reported %s, written %s (linkname=%s)", show(link), show(m.Hdr.Linkname), show(e["linkname"])))
+		}
+		pax = nil
 		c.bytes("data", db, m.Payload)
 		if m.Nested != "" && d != nil {
 			c.str("data.format:"+m.Nested, d["fmt"], m.Nested)
